@@ -21,6 +21,7 @@ package yang
 import (
 	"fmt"
 	"sort"
+	"strings"
 	"sync"
 )
 
@@ -242,6 +243,12 @@ func (ms *Modules) FindModule(n Node) *Module {
 	}
 	if n := m[name]; n != nil {
 		return n
+	}
+
+	// The name of a module is an identifier. Read would take a name with
+	// a / in it for the path of a file to load, whatever it is.
+	if strings.Contains(rev, "/") {
+		return nil
 	}
 
 	// Try to read first a module by revision
